@@ -433,6 +433,15 @@ func ZZ_C15_bearer_keys() {
 		kindA, kindB = kindB, kindA
 	}
 	w := newBearerWorld(kindA, kindB, twoKeys, false, false, 0)
+	if twoKeys && zz.Choice("second-key-scopes", 2) == 1 {
+		// the second key is registered WITHOUT any scope: it covers nothing
+		keys := w.store.MemoryStore.IssuerPublicKeys["iss1"].KeysBySub["sub1"].Keys
+		e := keys["k2"]
+		e.Scopes = nil
+		keys["k2"] = e
+		w.keys["B"].scopes = nil
+		zz.Cover("bkeys:second-key-without-scopes", true)
+	}
 	now := time.Now()
 	names := []string{"A", "C", "U"}
 	if twoKeys {
